@@ -320,7 +320,9 @@ class _MsgText(ast.NodeTransformer):
 
     def visit_Raise(self, node: ast.Raise) -> ast.AST:  # noqa: N802
         self.generic_visit(node)
-        if isinstance(node.exc, ast.Call) and node.exc.args:
+        cls_name = ast.unparse(node.exc.func).split(".")[-1] if isinstance(node.exc, ast.Call) else ""
+        # the argument of an interrupt (BreakLoop("break")) is a payload that ends up in a message, not a message
+        if isinstance(node.exc, ast.Call) and node.exc.args and (cls_name.endswith("Error") or cls_name == "Exception"):
             a = node.exc.args[0]
             if isinstance(a, ast.Constant) and isinstance(a.value, str):
                 node.exc.args[0] = ast.Constant(value="error: " + a.value)
